@@ -786,11 +786,61 @@ func (x *extractor) scanFunc(p *pkgInfo, f *ast.File, fd *ast.FuncDecl) {
 			for _, a := range ce.Args[1:] {
 				s.Segs = append(s.Segs, c.classify(a, 0))
 			}
+			if s.Use == "returned" { // key-builder helper: the use is the one of its callers (one level)
+				s.Use = x.usesOfCallers(p, fd.Name.Name)
+			}
 			x.Sites = append(x.Sites, s)
 			return true
 		})
 	}
 	x.ConcatCalls += countConcat(fd)
+}
+
+// usesOfCallers: how the value returned by key-builder helper fname is used at its call sites in the package.
+func (x *extractor) usesOfCallers(p *pkgInfo, fname string) string {
+	uses := map[string]bool{}
+	for _, f := range p.files {
+		var stack []ast.Node
+		ast.Inspect(f, func(n ast.Node) bool {
+			if n == nil {
+				stack = stack[:len(stack)-1]
+				return true
+			}
+			stack = append(stack, n)
+			ce, ok := n.(*ast.CallExpr)
+			if !ok {
+				return true
+			}
+			if id, ok := ce.Fun.(*ast.Ident); !ok || id.Name != fname {
+				return true
+			}
+			for i := len(stack) - 2; i >= 0; i-- {
+				if pc, ok := stack[i].(*ast.CallExpr); ok {
+					if sel, ok := pc.Fun.(*ast.SelectorExpr); ok {
+						switch sel.Sel.Name {
+						case "Put", "PutBytes":
+							uses["put"] = true
+						case "Get", "GetStorageItem", "GetStorageUInt64", "GetStorageUInt32", "GetStorageVarBytes":
+							uses["get"] = true
+						case "Delete":
+							uses["delete"] = true
+						}
+					}
+					break
+				}
+			}
+			return true
+		})
+	}
+	var l []string
+	for u := range uses {
+		l = append(l, u)
+	}
+	sort.Strings(l)
+	if len(l) == 0 {
+		return "returned"
+	}
+	return strings.Join(l, "+")
 }
 
 func countConcat(fd *ast.FuncDecl) int {
